@@ -103,6 +103,7 @@ type Case struct {
 	DelayArg   *uint64 `json:"delay_arg,omitempty"`
 	Delays     map[string]int `json:"delays,omitempty"` // further points: sleep this many ms at every hit
 	HashAlg    string `json:"hash_alg,omitempty"`       // Options.HashAlg of both sides ("" = crc32c)
+	SenderDoneDelayMs int `json:"sender_done_delay_ms,omitempty"` // the sender's FileDoneFn (the CLI installs one) takes this long when a file failed
 }
 
 type Result struct {
@@ -657,6 +658,14 @@ func runCase(c Case) (res Result) {
 	}
 	sopts := transfer.Options{ChunkSize: chunk, ParallelFiles: streams, Resume: true, ResumeVerifyTail: c.Tail, ResumeVerify: c.Verify, HashAlg: hashAlg}
 	sopts.ParamSource = func() transfer.RuntimeParams { return transfer.RuntimeParams{ChunkSize: chunk, ParallelFiles: streams} }
+	if c.SenderDoneDelayMs > 0 {
+		sopts.FileDoneFn = func(rel string, ok bool) {
+			if !ok {
+				time.Sleep(time.Duration(c.SenderDoneDelayMs) * time.Millisecond)
+			}
+		}
+		sopts.TransferStatsFn = func(active, completed int, remaining int64) {}
+	}
 	ropts := transfer.Options{Resume: c.Resume, NoRootDir: c.NoRoot, HashAlg: hashAlg, ParallelFiles: streams}
 
 	timeout := time.Duration(c.TimeoutMs) * time.Millisecond
